@@ -1137,6 +1137,16 @@ impl<E: El> Rest<E> {
                     return Err(viol("C08", step, format!("ended-while-alive/{:?}", s.kind), format!("{name}: stream ended although the vector is alive")));
                 }
                 let rep = kids(&s.replica);
+                if prop == "C05" && pending_msgs <= cap && (pending_msgs > 0 || s.mid > 0) {
+                    // a subscriber within capacity receives the diffs of every
+                    // call - also of the last ones before the vector went away
+                    return Err(viol(
+                        "C05",
+                        step,
+                        format!("stream-ended-with-undelivered-diffs/{:?}", s.kind),
+                        format!("{name}: the stream ended although {pending_msgs} message(s) (mid-batch: {}) were never delivered; replica {:?}, final contents {:?}", s.mid, rep, contents),
+                    ));
+                }
                 if &rep != contents {
                     return Err(viol(
                         "C08",
@@ -2027,6 +2037,10 @@ fn plans(prop: &str, tier: &str) -> Vec<Plan> {
             let mut cfgs = Vec::new();
             for ps in &sub_sets {
                 cfgs.extend(with_lens(Cfg { pre_subs: ps.clone(), txn: true, alphabet: Alphabet::Reduced, subscribe: true, max_subs: 3, ..base("C05") }, 0..=2));
+            }
+            // ... and the vector going away while diffs are still undelivered
+            for ps in &sub_sets {
+                cfgs.extend(with_lens(Cfg { pre_subs: ps.clone(), txn: true, alphabet: Alphabet::Reduced, drop_vec: true, epilogue_drop: true, ..base("C05") }, 0..=1));
             }
             out.push(Plan { name: "c05-reduced-deep", cfgs, depth: if q { 6 } else { 7 } });
         }
